@@ -136,6 +136,9 @@ Proof.
   - now apply nth_upd_ne.
 Qed.
 
+Lemma ptr_of_setv_same s v p : v < length (vars s) -> ptr_of (setv s v (Live p)) v = p.
+Proof. intros H. unfold ptr_of. rewrite getv_setv by auto. now rewrite Nat.eqb_refl. Qed.
+
 Lemma live_range s v : live s v = true -> v < length (vars s).
 Proof.
   unfold live, getv. intros H. destruct (Nat.lt_ge_cases v (length (vars s))) as [|Hge]; auto.
@@ -359,7 +362,7 @@ Lemma copy_assign_inv s v w : Inv s -> live s v = true -> live s w = true -> Inv
 Proof.
   intros HI Hv Hw. unfold copy_assign.
   destruct (optnat_eqb (ptr_of s v) (ptr_of s w)); [exact HI|].
-  rewrite ptr_of_inc, ptr_of_dec, ptr_of_inc. rewrite <- dec_setv_comm.
+  rewrite ptr_of_setv_same by (now apply live_range). rewrite inc_setv_comm.
   apply G_dec with (e := fun x => ptsO (ptr_of s v) x).
   - apply G_setv with (e := fun x => 0 + ptsO (ptr_of s w) x).
     + rewrite <- (unfresh_none (ptr_of s w)). apply G_inc; auto. exact (src_alive s w HI Hw).
@@ -377,7 +380,6 @@ Proof.
   destruct (optnat_eqb (ptr_of s v) (ptr_of s w)) eqn:Heq; [exact HI|].
   assert (v <> w) as Hne.
   { intros ->. destruct (ptr_of s w) as [a|]; simpl in Heq; [rewrite Nat.eqb_refl in Heq|]; discriminate. }
-  rewrite ptr_of_dec. rewrite <- !dec_setv_comm.
   apply G_dec with (e := fun x => ptsO (ptr_of s v) x).
   - apply G_setv2 with (e := fun _ => 0); auto using live_range.
     intros o. rewrite getv_setv by auto using live_range. destruct (Nat.eqb_spec v w); [congruence|].
@@ -387,6 +389,20 @@ Qed.
 
 Lemma conv_move_assign_inv s v w : Inv s -> live s v = true -> live s w = true -> Inv (conv_move_assign s v w).
 Proof. apply move_assign_inv. Qed.
+
+(** on this model the order shipped before ccc5d47 computes the same state *)
+Lemma copy_assign_shipped_eq s v w : live s v = true -> copy_assign_shipped nodel s v w = copy_assign s v w.
+Proof.
+  intros Hv. unfold copy_assign_shipped, copy_assign. destruct (optnat_eqb _ _); auto.
+  rewrite ptr_of_inc, ptr_of_dec, ptr_of_inc. rewrite ptr_of_setv_same by (now apply live_range).
+  rewrite inc_setv_comm. now rewrite dec_setv_comm.
+Qed.
+
+Lemma move_assign_shipped_eq s v w : move_assign_shipped nodel s v w = move_assign s v w.
+Proof.
+  unfold move_assign_shipped, move_assign. destruct (optnat_eqb _ _); auto.
+  rewrite ptr_of_dec. now rewrite !dec_setv_comm.
+Qed.
 
 Lemma release_inv nd s v h : Inv s -> live s v = true -> pts h = (fun _ => 0) ->
   Inv (setv (dec_reference nd s (ptr_of s v)) v h).
@@ -422,7 +438,7 @@ Proof. simpl. apply length_upd. Qed.
 Lemma len_vars_move_assign s v w : length (vars (move_assign s v w)) = length (vars s).
 Proof.
   unfold move_assign. destruct (optnat_eqb _ _); auto.
-  rewrite !len_vars_setv. now rewrite vars_dec.
+  rewrite vars_dec. now rewrite !len_vars_setv.
 Qed.
 
 Lemma vars_dtor_k nd s t : vars (dtor_k nd s t) = upd (vars s) t Dead.
@@ -445,7 +461,7 @@ Proof. unfold live. now rewrite getv_inc. Qed.
 Lemma live_move_assign_src s v w : live s v = true -> live s w = true -> live (move_assign s v w) w = true.
 Proof.
   intros Hv Hw. unfold move_assign. destruct (optnat_eqb _ _); auto.
-  apply live_setv_same. rewrite len_vars_setv, vars_dec. now apply live_range.
+  rewrite live_dec. apply live_setv_same. rewrite len_vars_setv. now apply live_range.
 Qed.
 
 (** [*this = <temporary>]: move-assignment from the temporary in the extra variable [t], then its destructor *)
